@@ -142,6 +142,7 @@ class Rig(object):
         self.store = None
         self.log = []
         self.c_commits = self.py_commits = 0     # COMMITs SQLite ran / COMMITs the proxy intercepted
+        self.quiet = False
         self.snaps = []          # per op: list of (kind, dump, api_view or None)
         self.api_probe = None    # callable(fresh_store) -> observation, evaluated on every snapshot
         self._saved = las.sqlite3
@@ -201,6 +202,8 @@ class Rig(object):
         return d, api
 
     def boundary(self, kind):
+        if self.quiet:           # an op of a long history whose crash points are not sampled
+            return
         d, api = self.snapshot()
         self.snaps.append((kind, d, api))
 
@@ -209,8 +212,8 @@ class Rig(object):
         return self.dump_conn(self.conn._real)
 
     # -- ops
-    def begin(self, api_probe=None):
-        self.snaps, self.log, self.api_probe = [], [], api_probe
+    def begin(self, api_probe=None, quiet=False):
+        self.snaps, self.log, self.api_probe, self.quiet = [], [], api_probe, quiet
         self.boundary("start")
 
     def open(self):
@@ -546,7 +549,8 @@ def run_impl(ctx, meta, ops, tag="s"):
 
                 def probe(fresh, _t=touched, _c=cands):
                     return [api_read_key(fresh, t, k, _c) for (t, k) in _t]
-                rig.begin(api_probe=probe if touched else None)
+                quiet = bool(op.get("q"))
+                rig.begin(api_probe=probe if (touched and not quiet) else None, quiet=quiet)
                 raised = None
                 try:
                     res = f(*[py[p] for p in mm["params"]])
@@ -563,6 +567,15 @@ def run_impl(ctx, meta, ops, tag="s"):
                     if got != exp:
                         out.problems.append(("oracle:readback", {"op": idx, "what": "%s returned %r, expected %r" % (
                             name, _short(got), _short(exp))}))
+                if quiet:
+                    # long history: this call's crash points are not sampled; the specification is kept up to date
+                    # and contents are compared again at the next sampled call
+                    out.traces.append(None)
+                    if rig.c_commits != rig.py_commits:
+                        out.problems.append(("driver", {"op": idx, "error": "a commit is issued in a way the proxy does not see"}))
+                    if out.problems:
+                        break
+                    continue
                 # API-level atomicity on the touched records, seen through a FRESH store at every boundary
                 if touched:
                     b_api = [api_expect(before, t, k, cands) for (t, k) in touched]
@@ -787,7 +800,63 @@ def directed():
     return out
 
 
-def gen_sequences(ctx):
+FAMILIES = {
+    # name -> (store class, i-th repetition of "replace the record" as API calls)
+    "sessions": ("LiteSessionStore", lambda i: [{"op": "storeSession", "args": {"r": "4911", "d": 1, "n": i % 3 + 1}}]),
+    "sessions+deleteSession": ("LiteSessionStore", lambda i: [
+        {"op": "storeSession", "args": {"r": "4911", "d": 1, "n": i % 3 + 1}}, {"op": "deleteSession", "args": {"r": "4911", "d": 1}}]),
+    "sessions+deleteAllSessions": ("LiteSessionStore", lambda i: [
+        {"op": "storeSession", "args": {"r": "4911", "d": 1, "n": i % 3 + 1}}, {"op": "deleteAllSessions", "args": {"r": "4911"}}]),
+    "identities": ("LiteIdentityKeyStore", lambda i: [{"op": "saveIdentity", "args": {"r": "4911", "seed": SEEDS[i % 3]}}]),
+    "prekeys": ("LitePreKeyStore", lambda i: [{"op": "removePreKey", "args": {"i": 1}},
+                                              {"op": "storePreKey", "args": {"i": 1, "seed": SEEDS[i % 3]}},
+                                              {"op": "setAsSent", "args": {"ids": [1]}}]),
+    "signed_prekeys": ("LiteSignedPreKeyStore", lambda i: [{"op": "removeSignedPreKey", "args": {"i": 0}},
+                                                           {"op": "storeSignedPreKey", "args": {"i": 0, "seed": SEEDS[i % 3]}}]),
+    "sender_keys": ("LiteSenderKeyStore", lambda i: [{"op": "storeSenderKey", "args": {
+        "g": "g2@g.us", "s": "4911", "n": i % 2 + 1, "seed": SEEDS[i % 3]}}]),
+}
+LONG_RUN = ("sessions", "identities", "prekeys", "signed_prekeys", "sender_keys")
+
+
+def long_history(family, reps, sampled):
+    """ONE store instance, `reps` repetitions of the family's replacing calls; crash points (every statement and
+    commit boundary) are taken for the repetitions in `sampled` only, the others just run ("q")."""
+    ops = [{"op": "open"}]
+    for i in range(1, reps + 1):
+        for o in FAMILIES[family][1](i):
+            ops.append(o if i in sampled else dict(o, q=1))
+    return ops
+
+
+def long_sequences(tier, state):
+    """(a) for every integer constant k a class with state outside the database compares against: k+2 repetitions
+    of every mutating call family of that class, crash points at repetitions k-1 .. k+2; (b) always: N replacing
+    stores per table with crash points around 1, 50, 64, 100, 128 (thorough: also 256, 500, 512, 1000, 1024) and N,
+    so that periodic maintenance is hit even when no constant is recognised."""
+    out, info = [], {"constants": [], "families": list(LONG_RUN)}
+    cap = 5000 if tier == "quick" else 100000
+    done = set()
+    for f in state or []:
+        fams = [n for n, (c, _) in FAMILIES.items() if c == f["class"]] or list(FAMILIES)
+        for k in f["constants"]:
+            if 2 <= k <= cap:
+                for fam in fams:
+                    if (fam, k) not in done:
+                        done.add((fam, k))
+                        out.append(("long:%s:threshold %d" % (fam, k), long_history(fam, k + 2, {1, k - 1, k, k + 1, k + 2})))
+                if k not in info["constants"]:
+                    info["constants"].append(k)
+    n = 130 if tier == "quick" else 1100
+    marks = [50, 64, 100, 128] + ([256, 500, 512, 1000, 1024] if tier != "quick" else [])
+    sampled = {1, 2, n - 1, n} | set(x for m in marks for x in (m - 1, m, m + 1) if x <= n)
+    info["N"], info["sampled_repetitions"] = n, sorted(sampled)
+    for fam in LONG_RUN:
+        out.append(("long:%s:N=%d" % (fam, n), long_history(fam, n, sampled)))
+    return out, info
+
+
+def gen_sequences(ctx, state=None):
     rng = ctx.rng
     seqs = []
     cdir = os.path.join(os.path.dirname(os.path.dirname(os.path.dirname(os.path.abspath(__file__)))), "corpus", "C13")
@@ -799,6 +868,9 @@ def gen_sequences(ctx):
         seqs.append(("systematic", s))
     for s in directed():
         seqs.append(("directed", s))
+    longs, info = long_sequences(ctx.tier, state)
+    ctx.coverage["long_histories"] = dict(info, histories=len(longs), calls=sum(len(o) for _, o in longs))
+    seqs += longs
     n = 250 if ctx.tier == "quick" else 6000
     for _ in range(n):
         ln = rng.choice([3, 6, 10, 16])
@@ -813,6 +885,8 @@ def compare_with_model(model, out):
     if isinstance(res, tuple):
         return {"error": "model: %s" % (res,)}
     for i, real in enumerate(out.traces):
+        if real is None:          # call of a long history without sampled crash points
+            continue
         if i >= len(res):
             return {"op": i, "what": "model produced no trace"}
         mod = res[i]
@@ -848,12 +922,16 @@ def shrink(ctx, meta, ops, pred):
 
 def run(ctx):
     meta = measured_layout = None
+    state = []
     try:
         meta = tr.regenerate(scratch=ctx.scratch)
         ex = meta["extraction"]
     except tr.Unrecognised as e:
         ex = getattr(e, "extraction", None) or {"path": "none (%s)" % e}
         measured_layout = getattr(e, "layout", None)
+        state = getattr(e, "state", None) or []
+        if state:
+            ctx.coverage["state_outside_db"] = ex.get("state_outside_db", [])
         ctx.ties["translator:c13_store"] = "broken: %s" % e
     # which extraction produced coq/Gen/C13Programs.v, and what the measurement said about the syntactic one
     ctx.coverage["translator_path"] = ex["path"]
@@ -896,7 +974,7 @@ def run(ctx):
     corr_bad = oracle_hits = 0
     deferred = []
     if meta is not None:
-        seqs = gen_sequences(ctx)
+        seqs = gen_sequences(ctx, state)
         for si, (origin, ops) in enumerate(seqs):
             try:
                 out = run_impl(ctx, meta, ops, "s")
@@ -904,7 +982,7 @@ def run(ctx):
                 ctx.violation("oracle:store-raised", {"ops": ops, "error": repr(e)[:300]})
                 continue
             evaluations += 1
-            boundaries += sum(len(t) for t in out.traces)
+            boundaries += sum(len(t) for t in out.traces if t is not None)
             for k, v in out.kinds.items():
                 kinds[k] = kinds.get(k, 0) + v
             h = hashlib.sha1(json.dumps(ops, sort_keys=True).encode()).hexdigest()
@@ -919,7 +997,9 @@ def run(ctx):
 
                 def pred(cand, _n=name):
                     return any(n == _n for n, _ in run_impl(ctx, meta, cand, "k").problems)
-                small = shrink(ctx, meta, ops, pred)
+                if isinstance(detail, dict) and isinstance(detail.get("op"), int):
+                    ops = ops[:detail["op"] + 1]            # nothing after the failing call matters
+                small = shrink(ctx, meta, ops, pred) if len(ops) <= 40 else ops
                 o2 = run_impl(ctx, meta, small, "k")
                 det = next((d for n, d in o2.problems if n == name), detail)
                 ctx.violation(name, {"ops": small, "detail": det, "origin": origin})
@@ -948,7 +1028,7 @@ def run(ctx):
                         deferred.append(rec)
             if si % 61 == 0 and out.traces:
                 ctx.add_sample({"origin": origin, "ops": [o["op"] for o in ops][:12],
-                                "boundaries": [len(t) for t in out.traces][:12]})
+                                "boundaries": [len(t) for t in out.traces if t is not None][:12]})
             if found:
                 oracle_hits += 1
             if oracle_hits >= 3:
@@ -1002,7 +1082,8 @@ def replay(ctx, data):
             json.load(open(os.path.join(os.path.dirname(tr.GEN_JSON), "C13Programs.last.json")))
     out = run_impl(ctx, meta, case["ops"], "r")
     for i, (o, t) in enumerate(zip(case["ops"], out.traces)):
-        print("op %d %s: %d crash points" % (i, o["op"], len(t)))
+        if t is not None:
+            print("op %d %s: %d crash points" % (i, o["op"], len(t)))
     for n, d in out.problems:
         print("observed:", n, json.dumps(d, default=str)[:800])
     print("expected: every record equals its value before or after the call at every crash point; nothing "
